@@ -56,14 +56,18 @@ def selected (arg : Option (List PyId)) (all : List PyId) (x : PyId) : Bool :=
   | none => decide (x ∈ all)
   | some l => decide (x ∈ l) && decide (x ∈ all)
 
-def subhypergraph (s : HG) (nodesArg edgesArg : Option (List PyId)) (keepIsolates : Bool) : HG × Outcome :=
+/-- the two additions: `new.add_nodes_from((uid, attr) … if uid in nodes)`,
+    `new.add_edges_from((members(uid), uid, attr) … if uid in edges and members(uid) <= nodes)` -/
+def subStage (s : HG) (nodesArg edgesArg : Option (List PyId)) : HG × Outcome :=
   let new := emptyWithNet s.net
   let inN := selected nodesArg s.nodes
   let inE := selected edgesArg s.edges
   let r1 := addNodesFrom new (nodePairs s (s.nodes.filter inN)) []
-  let r2 := andThen r1 (fun t => addEdgesFrom t .f4
+  andThen r1 (fun t => addEdgesFrom t .f4
     (edgeTriples s (s.edges.filter (fun e => inE e && (s.mem e).all inN))) [])
-  let r3 := andThen r2 (fun t =>
+
+def subhypergraph (s : HG) (nodesArg edgesArg : Option (List PyId)) (keepIsolates : Bool) : HG × Outcome :=
+  let r3 := andThen (subStage s nodesArg edgesArg) (fun t =>
     if keepIsolates then (t, .ok) else removeNodesFrom t (isolates t) false true)
   ({ r3.1 with frozen := true }, r3.2)
 
